@@ -44,7 +44,8 @@ type watcher struct {
 	m map[string][]ChangeListener
 	l zerolog.Logger
 
-	mut sync.Mutex
+	mut    sync.Mutex
+	notify sync.Mutex
 }
 
 func (w *watcher) startWatching() {
@@ -112,6 +113,14 @@ func (w *watcher) fireOnChange(evt fsnotify.Event) {
 	w.mut.Unlock()
 
 	for _, listener := range listeners {
-		go listener.OnChanged(w.l.Level(zerolog.InfoLevel))
+		go func() {
+			// one notification at a time. Listeners read the changed file and replace their state with what they
+			// have read. If notifications for subsequent changes would run concurrently, the one, which read
+			// the older contents, could finish last, leaving the outdated state in place.
+			w.notify.Lock()
+			defer w.notify.Unlock()
+
+			listener.OnChanged(w.l.Level(zerolog.InfoLevel))
+		}()
 	}
 }
